@@ -90,19 +90,19 @@ Theorem C17_a_block_is_read_as_its_assignment_lines_alone :
 Proof. exact parse_block_filter. Qed.
 Print Assumptions C17_a_block_is_read_as_its_assignment_lines_alone.
 
-(* physical and logical lines (Line.logical: a line feed ends an assignment only outside parentheses, as the post-lexer of
-   parser.py arranges; "#" starts a comment whose parentheses do not count): lines that are balanced are left alone, and a
-   statement broken inside parentheses - however many pieces, whatever stands around it - is put together again *)
+(* physical and logical lines (Line.logical: a line feed ends an assignment only outside parentheses - the post-lexer of
+   parser.py - and only where an expression can end - not behind + - * / = , ( ; "#" starts a comment whose parentheses do not
+   count): lines that are balanced and closed are left alone, and a statement broken inside parentheses or behind an operator
+   - however many pieces, blank lines among them, whatever stands around it - is put together again *)
 Theorem C17_balanced_lines_are_read_line_by_line :
-  forall ls, Forall balanced ls -> logical 0 EmptyString ls = ls /\ parse_body ls = parse_block ls.
+  forall ls, Forall balanced ls -> logical 0 false EmptyString ls = ls /\ parse_body ls = parse_block ls.
 Proof. intros ls H. split; [exact (logical_of_balanced_lines ls H)|exact (parse_body_of_balanced_lines ls H)]. Qed.
 Print Assumptions C17_balanced_lines_are_read_line_by_line.
 
-Theorem C17_a_statement_broken_inside_parentheses_is_one_statement :
-  forall ps d acc last rest,
-    pieces_open d ps -> depth_after (depth_pieces d ps) last = 0 ->
-    logical d acc (ps ++ last :: rest)
-    = String.append acc (String.append (glue ps) last) :: logical 0 EmptyString rest.
+Theorem C17_a_broken_statement_is_one_statement :
+  forall ps d op acc last rest,
+    pieces_open d op ps -> closes (fst (state_after d op ps)) (snd (state_after d op ps)) last = true ->
+    logical d op acc (ps ++ last :: rest)
+    = String.append acc (String.append (glue ps) last) :: logical 0 false EmptyString rest.
 Proof. exact logical_joins_broken_statement. Qed.
-Print Assumptions C17_a_statement_broken_inside_parentheses_is_one_statement.
-
+Print Assumptions C17_a_broken_statement_is_one_statement.
